@@ -822,7 +822,21 @@ def check_accumulating_loops(repo, rep, uni):
                             b = t.value
                 if isinstance(b, ast.Name) and b.id not in sources:
                     grown.setdefault(b.id, x)
+            shrunk = set()
+            for x in ast.walk(loop):
+                if isinstance(x, ast.Call) and isinstance(
+                        x.func, ast.Attribute) and x.func.attr in (
+                        'pop', 'popleft', 'popitem', 'remove', 'clear',
+                        'discard') and isinstance(x.func.value, ast.Name):
+                    shrunk.add(x.func.value.id)
+                elif isinstance(x, ast.Delete):
+                    for t in x.targets:
+                        if isinstance(t, ast.Subscript) and isinstance(
+                                t.value, ast.Name):
+                            shrunk.add(t.value.id)
             for name, at in sorted(grown.items()):
+                if name in shrunk:
+                    continue      # a window / work list, not accumulation
                 env = env or uni.env(fi)
                 v = env.ev(ast.Name(id=name, ctx=ast.Load()))
                 if not any(t[0] == 'fresh' for t in v.tags):
